@@ -17,7 +17,7 @@ RULE = ('cases: (a) valid peer traffic from the peer model (requests/responses, 
         'pushes, resets, priorities, settings) put through frame-level and byte-level mutators; (b) free sequences of '
         '4..30 frames on a handful of stream ids drawn without regard to legality: HEADERS (request / response / 1xx / '
         'trailers lists, with and without END_STREAM and priority), DATA, RST_STREAM, PUSH_PROMISE, WINDOW_UPDATE, '
-        'PRIORITY, CONTINUATION, incl. HEADERS on never-promised even streams and DATA before HEADERS; both roles; '
+        'PRIORITY, CONTINUATION, ALTSVC, incl. HEADERS on never-promised even streams and DATA before HEADERS; for clients optionally after local calls that were refused (trailers without END_STREAM, un-encodable header text on a new stream); both roles; '
         'chunked delivery until the first exception. Monitor per stream: only role-appropriate event classes; '
         'informational* final-headers data* trailers? StreamEnded?; no data before final headers; nothing of the message '
         'after StreamEnded; at most one StreamReset and only PriorityUpdated after it; related-event fields refer to '
@@ -143,10 +143,26 @@ def free_sequence(ch, client):
     nxt = 1                     # next id the peer would open (server role) / promise (client role: even)
     promise = 2
     live = [1, 3, 5] if client else []
+    ended = []                  # streams on which the peer has sent END_STREAM
     for _ in range(ch.int(4, 30)):
         if ch.chance(236):
             # a step a conforming peer could take
-            lop = ch.weighted([(4, 'open'), (6, 'data'), (2, 'trailers'), (1, 'rst'), (2, 'push'), (1, 'info')])
+            lop = ch.weighted([(4, 'open'), (6, 'data'), (2, 'trailers'), (1, 'rst'), (2, 'push'), (1, 'info'),
+                               (1, 'altsvc'), (1, 'probe-ended')])
+            if lop == 'altsvc':
+                # ALTSVC is legal on any stream and changes nothing about the message on it
+                frames.append(wire.altsvc(ch.pick(live + ended + [0]), b'', b'h2=":443"'))
+                continue
+            if lop == 'probe-ended':
+                # after its END_STREAM the peer sends a frame that is harmless on an ended stream, then DATA or
+                # HEADERS again: nothing of the message may be reported a second time
+                if ended:
+                    sid = ch.pick(ended)
+                    frames.append(ch.pick([wire.altsvc(sid, b'', b'h2=":443"'), wire.window_update(sid, 10),
+                                           wire.priority(sid, 0, 16, False)]))
+                    frames.append(wire.data(sid, b'late', end_stream=ch.bool()) if ch.bool() else
+                                  wire.headers(sid, enc.encode(TRAIL), end_stream=True))
+                continue
             if lop == 'open':
                 if client:
                     if not live:
@@ -156,6 +172,7 @@ def free_sequence(ch, client):
                     frames.append(wire.headers(sid, enc.encode(RESP), end_stream=es))
                     if es and ch.chance(230):
                         live.remove(sid)
+                        ended.append(sid)
                 else:
                     sid, nxt = nxt, nxt + 2
                     live.append(sid)
@@ -178,9 +195,12 @@ def free_sequence(ch, client):
                     frames.append(wire.data(sid, b'd' * ch.int(0, 5), end_stream=es))
                 if es and ch.chance(230):
                     live.remove(sid)
+                    if lop != 'rst':
+                        ended.append(sid)
             continue
         sid = ch.pick(sids)
-        op = ch.weighted([(8, 'headers'), (7, 'data'), (2, 'rst'), (3, 'push'), (1, 'wu'), (1, 'prio'), (1, 'cont')])
+        op = ch.weighted([(8, 'headers'), (7, 'data'), (2, 'rst'), (3, 'push'), (1, 'wu'), (1, 'prio'), (1, 'cont'),
+                          (2, 'altsvc')])
         if op == 'headers':
             hs = ch.weighted([(4, RESP if client else REQ), (2, REQ if client else RESP), (2, INFO), (3, TRAIL)])
             prio = (ch.pick([0, 1, 3]), ch.int(1, 256), ch.bool()) if ch.chance(40) else None
@@ -197,6 +217,8 @@ def free_sequence(ch, client):
             frames.append(wire.window_update(ch.pick([0, sid]), ch.int(1, 100)))
         elif op == 'prio':
             frames.append(wire.priority(sid, 0, 16, False))
+        elif op == 'altsvc':
+            frames.append(wire.altsvc(ch.pick([sid, sid, 0]), ch.pick([b'', b'example.com']), b'h2=":443"'))
         else:
             frames.append(wire.continuation(sid, b''))
     return frames
@@ -213,7 +235,19 @@ def run_case(data):
         sc.prefix.append(('initiate_connection', (), {}))
         if client:
             for sid in (1, 3, 5):
-                sc.prefix.append(('send_headers', (sid, REQ), {'end_stream': ch.chance(60)}))
+                es = ch.chance(60)
+                sc.prefix.append(('send_headers', (sid, REQ), {'end_stream': es}))
+                if not es and ch.chance(48):
+                    # a local call that is refused (trailers without END_STREAM / with a pseudo-header): what
+                    # the peer is then allowed to make us report on that stream does not change
+                    bad = ch.pick([((sid, [(b'x-t', b'1')]), {}),
+                                   ((sid, [(b'x-t', b'1'), (b':status', b'200')]), {'end_stream': True})])
+                    sc.prefix.append(('send_headers', bad[0], bad[1], 'refused'))
+                    r.labels.add('refused-local-call-in-prefix')
+            if ch.chance(64):
+                # a request that never left: header text that cannot be encoded (the call raises)
+                sc.prefix.append(('send_headers', (7, REQ + [('x-bad-text', 'v\udcff')]), {}, 'refused'))
+                r.labels.add('failed-open-in-prefix')
         frames = free_sequence(ch, client)
     else:
         sc = bytesgen.build(ch)
